@@ -23,7 +23,9 @@ def sh(cmd, cwd=None, env=None, timeout=3600):
 CMP = {ast.Lt: ast.LtE, ast.LtE: ast.Lt, ast.Gt: ast.GtE, ast.GtE: ast.Gt, ast.Eq: ast.NotEq, ast.NotEq: ast.Eq,
        ast.Is: ast.IsNot, ast.IsNot: ast.Is, ast.In: ast.NotIn, ast.NotIn: ast.In}
 BIN = {ast.Add: ast.Sub, ast.Sub: ast.Add, ast.Mult: ast.FloorDiv, ast.FloorDiv: ast.Mult}
-NAME_SWAP = {"min": "max", "max": "min", "any": "all", "all": "any", "maximum": "minimum", "minimum": "maximum",
+DROP_KW = ("dtype", "copy", "axis", "order")
+NAME_SWAP = {"flatten": "ravel", "startswith": "endswith", "endswith": "startswith", "rstrip": "strip", "match": "search",
+             "fullmatch": "match", "setdefault": "get", "rsplit": "split", "split": "rsplit", "min": "max", "max": "min", "any": "all", "all": "any", "maximum": "minimum", "minimum": "maximum",
              "less_equal": "less", "less": "less_equal", "logical_and": "logical_or", "logical_or": "logical_and",
              "argmax": "argmin", "cumsum": "cumprod"}
 
@@ -43,9 +45,17 @@ def sites(tree):
         elif isinstance(node, ast.Constant) and isinstance(node.value, int) and not isinstance(node.value, bool) \
                 and 0 <= node.value <= 8:
             out.append(("const", node))
+        elif isinstance(node, ast.IfExp) and isinstance(node.test, ast.Compare) and len(node.test.ops) == 1 \
+                and isinstance(node.test.ops[0], ast.IsNot) and isinstance(node.test.comparators[0], ast.Constant) \
+                and node.test.comparators[0].value is None:
+            out.append(("noneor", node))          # `x if x is not None else y` -> `x or y`
         elif isinstance(node, ast.Call):
             f = node.func
             nm = f.id if isinstance(f, ast.Name) else (f.attr if isinstance(f, ast.Attribute) else None)
+            if any(k.arg in DROP_KW for k in node.keywords):
+                out.append(("dropkw", node))      # forget dtype= / copy= / axis= / order=
+            if nm == "copy" and isinstance(f, ast.Attribute) and not node.args and not node.keywords:
+                out.append(("dropcopy", node))    # x.copy() -> x  (aliasing)
             if nm in NAME_SWAP:
                 out.append(("name", node))
             elif nm in ("abs", "absolute") and len(node.args) == 1:
@@ -55,14 +65,16 @@ def sites(tree):
     return out
 
 
-def mutate(src: str, rng: random.Random):
+def mutate(src: str, rng: random.Random, kinds=None):
     """-> (new_src, description) or None"""
     tree = ast.parse(src)
-    ss = sites(tree)
+    ss = [x for x in sites(tree) if kinds is None or x[0] in kinds]
     if not ss:
         return None
     kind, node = rng.choice(ss)
     line = getattr(node, "lineno", 0)
+    before = ast.unparse(node)
+    repl = None
     if kind == "cmp":
         node.ops[0] = CMP[type(node.ops[0])]()
     elif kind == "bool":
@@ -95,11 +107,31 @@ def mutate(src: str, rng: random.Random):
                     val[val.index(node)] = node.args[0]
     elif kind == "swapargs":
         node.args[0], node.args[1] = node.args[1], node.args[0]
+    elif kind == "noneor":
+        repl = ast.BoolOp(op=ast.Or(), values=[node.body, node.orelse])
+    elif kind == "dropkw":
+        ks = [k for k in node.keywords if k.arg in DROP_KW]
+        node.keywords.remove(rng.choice(ks))
+    elif kind == "dropcopy":
+        repl = node.func.value
+    if repl is not None:
+        for parent in ast.walk(tree):
+            for fld, val in ast.iter_fields(parent):
+                if val is node:
+                    setattr(parent, fld, repl)
+                elif isinstance(val, list) and node in val:
+                    val[val.index(node)] = repl
+        ast.fix_missing_locations(tree)
     try:
         new = ast.unparse(tree)
     except Exception:  # noqa: BLE001
         return None
-    return new, f"{kind}@{line}"
+    try:
+        after = ast.unparse(repl if repl is not None else (node.operand if kind == "not" else
+                                                             (node.args[0] if kind == "dropcall" else node)))
+    except Exception:  # noqa: BLE001
+        after = "?"
+    return new, f"{kind}@{line}", f"{before}  ==>  {after}"
 
 
 def main():
@@ -108,11 +140,15 @@ def main():
     ap.add_argument("--seed", type=int, default=1)
     ap.add_argument("-j", type=int, default=4)
     ap.add_argument("--out", default=os.path.join(VERIF, "seeded", "MUTSWEEP.json"))
+    ap.add_argument("--kinds", default="", help="comma separated: restrict to these mutation kinds")
+    ap.add_argument("--files", default="", help="comma separated substrings: restrict to matching source files")
     a = ap.parse_args()
     rng = random.Random(a.seed)
     props = sorted(c["property_id"] for c in json.load(open(os.path.join(VERIF, "MANIFEST.json")))["checks"])
     sh([PY, "harness/setup.py"], cwd=VERIF)
     files = [p for p in glob.glob("/repo/fieldcompare/**/*.py", recursive=True) if not p.endswith(SKIP_FILES)]
+    if a.files:
+        files = [p for p in files if any(x in p for x in a.files.split(","))]
     results = []
     tried = 0
     while len(results) < a.n and tried < 6 * a.n:
@@ -121,10 +157,10 @@ def main():
         rel = os.path.relpath(path, "/repo")
         # NOTE: ast.unparse drops comments/formatting — irrelevant for behaviour; the baseline of a mutant is the
         # unparsed ORIGINAL (so that table extractors see the same normalisation)
-        m = mutate(open(path).read(), rng)
+        m = mutate(open(path).read(), rng, a.kinds.split(",") if a.kinds else None)
         if m is None:
             continue
-        new, desc = m
+        new, desc, change = m
         wt = tempfile.mkdtemp(prefix="fcv_mut_"); os.rmdir(wt)
         rc, out = sh(["git", "-C", "/repo", "worktree", "add", "-q", "--detach", wt, "HEAD"])
         assert rc == 0, out
@@ -136,7 +172,7 @@ def main():
             rc, out = sh([PY, "-m", "pytest", "-q", "-x", "-p", "no:cacheprovider", "--timeout=300",
                           "--deselect", "test/test_examples.py::test_api_examples"], cwd=wt, timeout=1200)
             if rc != 0:
-                results.append({"file": rel, "mutation": desc, "tests": "fail"})
+                results.append({"file": rel, "mutation": desc, "change": change, "tests": "fail"})
                 print(f"[tests-kill] {rel} {desc}", flush=True)
                 continue
             env = dict(os.environ, FCV_REPO=wt)
@@ -150,7 +186,7 @@ def main():
                 row = dict(ex.map(one, props))
             killers = {p: k for p, k in row.items() if k != "-"}
             diff = sh(["git", "-C", wt, "diff", "--stat"])[1]
-            results.append({"file": rel, "mutation": desc, "tests": "pass", "killers": killers})
+            results.append({"file": rel, "mutation": desc, "change": change, "tests": "pass", "killers": killers})
             print(f"[{'KILLED' if killers else 'SURVIVED'}] {rel} {desc} {killers}", flush=True)
         finally:
             sh(["git", "-C", "/repo", "worktree", "remove", "--force", wt])
@@ -159,7 +195,7 @@ def main():
     print(f"mutants: {len(results)}; killed by the pinned tests: {sum(r['tests'] == 'fail' for r in results)}; "
           f"test-surviving: {sum(r['tests'] == 'pass' for r in results)}; of these not reported by any check: {len(surv)}")
     for r in surv:
-        print("SURVIVOR", r["file"], r["mutation"])
+        print("SURVIVOR", r["file"], r["mutation"], "|", r.get("change"))
 
 
 if __name__ == "__main__":
